@@ -16,7 +16,7 @@ from contracts import ContractSet, FnContract, Clause, LoopSpec, ContractError
 VERIF = os.path.dirname(os.path.dirname(os.path.abspath(__file__)))
 
 KEEP_DERIVES = ['Clone', 'Copy', 'PartialEq', 'Eq', 'Default', 'Hash']
-TRAITS_TO_INHERENT = {'ReadBox', 'WriteBox', 'Mp4Box', 'ReadDesc', 'WriteDesc', 'Descriptor'}
+TRAITS_TO_INHERENT = {'ReadBox', 'WriteBox', 'Mp4Box', 'ReadDesc', 'WriteDesc', 'Descriptor', 'Metadata'}
 STRIP_MODS = {'crate', 'mp4box', 'track', 'reader', 'writer', 'types', 'error'}
 
 
@@ -111,7 +111,7 @@ class Extractor:
     def run(self):
         out = self.out
         out.add('#![allow(unused_imports, unused_variables, unused_mut, dead_code, unused_assignments, non_snake_case, unreachable_patterns, unused_parens, non_camel_case_types)]\n#![feature(allocator_api)]\n#![verifier::allow(autoderive_clone_without_spec)]\n', ('gen', 'header'))
-        out.add('use vstd::prelude::*;\nuse vstd::std_specs::cmp::OrdSpec;\nuse std::collections::HashMap;\nuse std::convert::TryFrom;\nuse std::convert::TryInto;\nuse std::num::TryFromIntError;\n', ('gen', 'header'))
+        out.add('use vstd::prelude::*;\nuse vstd::std_specs::cmp::OrdSpec;\nuse std::collections::HashMap;\nuse std::convert::TryFrom;\nuse std::convert::TryInto;\nuse std::num::TryFromIntError;\nuse std::borrow::Cow;\n', ('gen', 'header'))
         out.add('verus! {\n', ('gen', 'header'))
         for d, tag in ((self.prelude_dir, 'prelude'), (self.spec_dir, 'spec')):
             for f in sorted(os.listdir(d)):
@@ -438,6 +438,12 @@ class Extractor:
                     cnt = int(toks[k + 3].text.replace('_', ''), 0)
                     edits.append(Edit(toks[k].start, toks[k + 4].end, '[' + ', '.join([toks[k + 1].text] * cnt) + ']', ('gen', 'R5')))
                     self.log_rule('R5', relfile, toks[k].line, '[lit; n] expanded in const')
+            # R5: `*b"abcd"` (dereferenced ASCII byte-string literal) -> the array literal of its bytes
+            for k in range(eq + 1, len(toks) - 1):
+                if toks[k].text == '*' and toks[k + 1].kind == 'str' and re.fullmatch(r'b"[A-Za-z0-9 _\-]*"', toks[k + 1].text):
+                    bs = toks[k + 1].text[2:-1]
+                    edits.append(Edit(toks[k].start, toks[k + 1].end, '[' + ', '.join("b'%s'" % ch for ch in bs) + ']', ('gen', 'R5')))
+                    self.log_rule('R5', relfile, toks[k].line, '*b"..." expanded to a byte array literal in const')
         if toks[0].text == 'pub' and toks[1].text == '(':
             c = match_close(toks, 1)
             edits.append(Edit(toks[1].start, toks[c].end, '', ('gen', 'R8')))
@@ -468,10 +474,14 @@ class Extractor:
         self.report['boxtype_macro_sha256'] = h
         EXPECT = self.cs.policy.opaque_body.get('boxtype_macro_sha256')
         o = self.out
-        o.add('#[derive(Clone, Copy, PartialEq, Eq)]\npub enum BoxType {\n', ('gen', 'R6'))
+        # the macro's derive(PartialEq, Eq) on a field-less enum + one u32 payload is structural equality: replaced by its
+        # specification (R4b) so that `a == b` on box types is usable in proofs; the derive output itself is not verified
+        o.add('#[derive(Clone, Copy)]\npub enum BoxType {\n', ('gen', 'R6'))
         for n_, v, off in pairs:
             o.add('    %s,\n' % n_, ('src', relfile, off))
         o.add('    UnknownBox(u32),\n}\n', ('gen', 'R6'))
+        o.add('impl PartialEq for BoxType { #[verifier::external_body] fn eq(&self, other: &Self) -> (r: bool) ensures r == (*self == *other) { unimplemented!() } }\nimpl Eq for BoxType {}\n', ('gen', 'R4b'))
+        self.report['external_body'].append({'fn': 'BoxType::{PartialEq}', 'reason': "boxtype! macro's derive(PartialEq) replaced by its structural specification (rule R6/R4b)"})
         # From<u32> for BoxType
         self.out.fn_ranges.append({'start': o.pos, 'path': 'BoxType::from<u32>', 'file': relfile, 'line': mac.line, 'module': ctx['mod']})
         fr = self.out.fn_ranges[-1]
@@ -546,7 +556,7 @@ class Extractor:
             ty_short = '&' + (ty_short or '')
         if ty_short is None:
             ty_short = re.sub(r'\s+', '', selfty)
-        if trait and (trait in pol.drop_impl or ('%s for %s' % (trait, ty_short)) in pol.drop_impl):
+        if trait and (trait in pol.drop_impl or ('%s for %s' % (trait, ty_short)) in pol.drop_impl or ('%s@%s' % (trait, ty_short)) in pol.drop_impl):
             return self.drop(ctx, it, 'policy drop-impl', 'impl %s for %s' % (trait, ty_short))
         toks = it.toks
         lo, hi = it.body_open + 1, it.body_close
@@ -1019,6 +1029,26 @@ class Extractor:
         # R7 outlines
         for c in contracts:
             for o in c.outlines:
+                if getattr(o, 'expr', False):
+                    # expression-level outline: the exact token sequence of one expression is replaced by a call
+                    want = [t.text for t in lex(o.frm)]
+                    hit = None
+                    for k in range(lo, hi - len(want) + 1):
+                        if [t.text for t in toks[k:k + len(want)]] == want:
+                            hit = k; break
+                    if hit is None:
+                        self.report['unanchored'].append({'what': '%s outline-expr "%s"' % (path, o.frm), 'src': o.src})
+                        continue
+                    a0, b1 = toks[hit].start, toks[hit + len(want) - 1].end
+                    region = re.sub(r'\s+', ' ', src[a0:b1]).strip()
+                    h = hashlib.sha256(region.encode()).hexdigest()
+                    ok = (h == o.sha)
+                    self.report.setdefault('outlines', []).append({'fn': path, 'file': relfile, 'from': o.frm, 'to': '(expression)',
+                                                                   'sha256': h, 'expected': o.sha, 'unchanged': ok,
+                                                                   'lines': [src.count('\n', 0, a0) + 1, src.count('\n', 0, b1) + 1]})
+                    self.log_rule('R7', relfile, src.count('\n', 0, a0) + 1, 'outlined expression in %s (%s)' % (path, 'unchanged' if ok else 'CHANGED'))
+                    edits.append(Edit(a0, b1, o.text, ('inj', 'outline', o.src, 'outline')))
+                    continue
                 a = self.find_anchor(src, toks, lo, hi, o.frm, 1)
                 b = self.find_anchor(src, toks, lo, hi, o.to, 1)
                 if a is None or b is None or b[1] <= a[0]:
